@@ -988,6 +988,34 @@ func c02(p *core.Program, r *core.Report) {
 		}
 	}
 
+	// ---- rule 5d: the level-1 kernels come back for the empty range of a geometry without a layout
+	const r5d = "kernels-return-for-zero-stride"
+	r.Rule(r5d, "CONSTEVAL: every unexported function of package geom with the kernel signature (flatCoords []float64, offset, end, stride int) evaluated with offset = end = 0 and stride = 0 - what Reverse, Length, Area and Coords hand it for the (necessarily empty) parts of a geometry constructed with NoLayout - reaches a return: a loop whose cursors are stepped by the stride and whose condition holds for the empty range (i <= j with i = offset+stride, j = end) never ends, and Reverse() on such a geometry hangs", 3)
+	{
+		n := 0
+		for _, fn := range pkgFuncs(p, "") {
+			if fn.Parent() != nil || fn.Signature.Recv() != nil || len(fn.Params) != 4 || len(fn.Blocks) == 0 {
+				continue
+			}
+			if !isFloatSlice(fn.Params[0].Type()) || fn.Params[1].Name() != "offset" || fn.Params[2].Name() != "end" || fn.Params[3].Name() != "stride" {
+				continue
+			}
+			n++
+			ev := &eng.ConstEval{MaxDepth: 3}
+			res := ev.RunStable(fn, []eng.CVal{eng.Top, eng.IntV(0), eng.IntV(0), eng.IntV(0)})
+			returns := false
+			for _, b := range fn.Blocks {
+				if _, isRet := b.Instrs[len(b.Instrs)-1].(*ssa.Return); isRet && res.Reach[b] {
+					returns = true
+				}
+			}
+			r.Check(returns, r5d, short(fn), p.Pos(fn.Pos()), true, "a return is reached with offset = end = 0, stride = 0", short(fn)+" evaluated for the empty range with stride 0 reaches no return: its loop makes no progress and its condition holds for ever (Reverse() of a NoLayout geometry with an empty part hangs)")
+		}
+		if n == 0 {
+			r.Lost(r5d, "geom/kernels", "no function with the kernel signature (flatCoords, offset, end, stride) is left")
+		}
+	}
+
 	// ---- rule 6: Push / SetCoords copy; only Swap and GeometryCollection.Push share storage, by design
 	const r6 = "parts-copied-not-shared"
 	r.Rule(r6, "MODREF capture query: after Push (Polygon, MultiPoint, MultiLineString, MultiPolygon) and SetCoords (all 7 types) no memory reachable from the receiver holds a reference to memory supplied through another argument - the part's coordinates and offsets are copied, so later pushes into or reversals of either geometry cannot show through the other; GeometryCollection.Push, which stores the pushed pointers by design, is the positive control that the query sees captures", 12)
